@@ -74,10 +74,16 @@ def run(ctx):
         if e.get("origin", "").endswith("/again"):
             sig["history"] = "second PrepareChannels on the same object"
         vlib.report_violation(ctx, sig, {"config": e.get("cfg"), "kind": e["kind"], "table": e["table"][:40], "groups": e["groups"]})
+    # "file headers carry the same identity as status messages": write-control histories on a real AnySource, half of them
+    # with a source of mixed geometry; every written file's header is decoded (WriteControlTrace.tla, C19_header_identity)
+    import wc_common as wc
+    wevents, wviols = wc.model_and_traces(ctx, ["C19_"])
+    ctx.notes["files_with_headers_decoded"] = sum(1 for e in wevents if e["ev"] == "File" and e.get("exists"))
+    wc.judge(ctx, wevents, wviols, lambda s, idx, e: {"event": e["ev"], "layer": "file-header", "type": e.get("t", "")})
     return vlib.finish(ctx, LEVEL,
                        "case = one source configuration (Lancero: active device numbers, geometry per device, first-row number, card and column separations incl. 0 / negative / too small; Abaco: group layouts incl. overlaps and holes; Roach / simulated: channel count); distinct by hash; non-trivial = accepted with more than two data streams",
                        ["the exhaustive TLC model is the transcription of the Lancero numbering and its validation; the real PrepareChannels / Sample overlap check is run on the enumerated and seeded configurations and judged declaratively",
-                        "file names are derived from the channel names (distinct names => distinct files); header identity is checked by C05's decoders on written files",
+                        "file names are derived from the channel names (distinct names => distinct files); header identity and geometry are decoded from files written by write-control histories on sources of uniform and of mixed geometry",
                         "fake devices: only the fields PrepareChannels reads are filled"], exhaustive=not q)
 
 
